@@ -15,6 +15,13 @@ CLAIMS = {
          "message exactly when it hands it up; add/build obey their counting contracts for every buffer state and segment index. "
          "Unbounded in message size, segment count and iteration count.",
          "Not decided: the QUIC/WebTransport datagram layer itself, arrival timing/expiry wall-clock.", "6/C14"),
+ 'C07': ("Contract proof of the unacknowledged-chunk store (inmemSentStorage Store/Remove/List/Clear and constructor): every operation is specified over the whole "
+         "abstract view (stream id, sequence number) -> groups, so for all stores, all pairs of stream ids and all sequence numbers an operation on one stream leaves every other stream's "
+         "entries present and unchanged; List returns a fresh copy equal to the stream's entries (map-range loop invariant); representation invariant (inner maps non-nil, pairwise distinct) re-established by every method.",
+         "Not decided: end-to-end non-interference of traffic through goroutines and the wire dispatch tables (only the store is under contract so far).", "6/C07"),
+ 'C08': ("Lock-release lemma, zero annotation: for every function and closure of the library that performs a mutex operation (list recomputed from SSA on each run, 108 on the current tree) and for every control-flow path: "
+         "no return and no loop back-edge is reached with a different lock state than on entry, no Unlock/RUnlock of an unheld mutex, no re-lock of a mutex the function already holds, Cond.Wait only with its Locker held.",
+         "Not decided: that each blocking call returns within its context / close timeout / keepalive bound (timing and liveness are outside what function contracts express); callees without contract are assumed lock-balanced, which is exactly what this sweep proves for each of them. Assumed lock identities (typeassume) are listed in the evidence.", "6/C08"),
 }
 NA_REASON_DEFAULT = "check not built yet (framework under construction; see DESIGN.md section 8)"
 NA = {}
